@@ -2,5 +2,7 @@ package props
 
 // Sub-packages holding one check each register themselves on import.
 import (
+	_ "verif/harness/props/c07"
 	_ "verif/harness/props/c17"
+	_ "verif/harness/props/c18"
 )
